@@ -70,6 +70,7 @@ type C struct {
 	la          *lockAnalysis
 	retAliasMemo map[*ssa.Function]map[int]string
 	inPlaceMemo  map[string]string
+	mwrapMemo    map[*ssa.Function]*[3]string
 	preMemo     map[*ssa.Function][]dfact
 	preBusy     map[*ssa.Function]bool
 	bce         map[string]bool
